@@ -153,6 +153,106 @@ def extern_call(an, f, st, t, c, argiv):
     return ret, goal, eff
 
 
+def _owner_len(an, st, owner, ty_s):
+    v = st.v.get((owner[0], owner[1] + ("#len",)))
+    d = type_len(ty_s)
+    if v is not None:
+        return (meet(v, d) or v) if d is not None else v
+    return d
+
+
+def _bb_of(f, t):
+    for b, blk in enumerate(f.blocks):
+        if blk["term"] is t:
+            return b
+    return -1
+
+
+def _copy_root(f, operand, depth=0):
+    """Follow single-definition copies/moves/lossless casts of a scalar temp to its root local."""
+    p = core.op_place(operand)
+    if p is None or p["proj"] and not (len(p["proj"]) == 1 and p["proj"][0]["k"] == "deref"):
+        # `copy (*_3)` : the pointee of parameter/ref _3 - identify by (local, "*")
+        return None
+    if p["proj"]:
+        return ("deref", p["local"])
+    l = p["local"]
+    if depth > 12:
+        return ("local", l)
+    ds = [d for d in f.defs_of(l) if not f.blocks[d[0]]["cleanup"]]
+    if len(ds) == 1 and ds[0][1] != "term" and ds[0][2]["k"] == "assign":
+        rv = ds[0][2]["rv"]
+        if rv["k"] == "use":
+            r = _copy_root(f, rv["op"], depth + 1)
+            if r is not None:
+                return r
+    return ("local", l)
+
+
+def _range_span(an, f, st, o):
+    """If the range operand is `X .. X + L` (also `X .. X.checked_add(L)?`) return (True, interval of L or
+    None): the range is ordered by construction (the addition is checked) and its span is exactly L,
+    whatever X is - a local relational fact read off the MIR definitions."""
+    p = core.op_place(o)
+    if p is None or p["proj"]:
+        return None
+    ds = [d for d in f.defs_of(p["local"]) if not f.blocks[d[0]]["cleanup"]]
+    if len(ds) != 1 or ds[0][1] == "term" or ds[0][2]["k"] != "assign":
+        return None
+    rv = ds[0][2]["rv"]
+    if not (rv["k"] == "aggregate" and rv.get("path") == "core::ops::range::Range" and len(rv["ops"]) == 2):
+        return None
+    sroot = _copy_root(f, rv["ops"][0])
+    if sroot is None:
+        return None
+    # definition of the end operand: through copies, `.0` of a checked add, or the Continue payload of `?`
+    cur = rv["ops"][1]
+    for _ in range(12):
+        pl = core.op_place(cur)
+        if pl is None:
+            return None
+        l = pl["local"]
+        dd = [d for d in f.defs_of(l) if not f.blocks[d[0]]["cleanup"]]
+        if len(dd) != 1:
+            return None
+        b, i, d = dd[0]
+        if i == "term":
+            dp = flow.decl_path(d) or ""
+            if dp.endswith("Try::branch") or dp.endswith("try_trait::Try::branch"):
+                cur = d["args"][0]
+                continue
+            if dp.endswith("checked_add") and len(d["args"]) == 2:
+                for x, y in ((d["args"][0], d["args"][1]), (d["args"][1], d["args"][0])):
+                    if _copy_root(f, x) == sroot:
+                        return (True, an.op_iv(f, st, y))
+            return None
+        if d["k"] != "assign":
+            return None
+        r2 = d["rv"]
+        if r2["k"] == "use":
+            cur = r2["op"]
+            continue
+        if r2["k"] == "binop" and r2["op"] in ("AddWithOverflow", "Add"):
+            for x, y in ((r2["a"], r2["b"]), (r2["b"], r2["a"])):
+                if _copy_root(f, x) == sroot:
+                    return (True, an.op_iv(f, st, y))
+            return None
+        return None
+    return None
+
+
+def _expr_iv(an, f, st, e):
+    if e[0] == "const" and isinstance(e[1], int):
+        return (e[1], e[1])
+    if e[0] == "arg":
+        return st.v.get((e[1], ()))
+    if e[0] == "var":
+        return st.v.get((e[1], ()))
+    if e[0] == "cast":
+        return _expr_iv(an, f, st, e[1])
+    return None
+
+
 def _rng_bounds(an, f, st, o):
     """(start interval, end interval or None, kind) of a range operand."""
     p = core.op_place(o)
@@ -192,13 +292,44 @@ def _len_model(an, f, st, t, c, argiv):
     name = res or decl
     last = name.rsplit("::", 1)[-1]
     args = t["args"]
+    if last == "next" and args:
+        own = iter_owner(f, args[0])
+        trip = None
+        if own is not None:
+            it = st.v.get((own, ("#item",)))
+            ln = st.v.get((own, ("#len",)))
+            ei = st.v.get((own, ("#eidx",)))
+            rm = st.v.get((own, ("#rem",)))
+            if rm is not None and f.blocks[_bb_of(f, t)] and (f.path, _bb_of(f, t)) not in an.trip_seen:
+                # first visit of this `next` in this analysis: the iterator is still untouched
+                trip = rm[1]
+            elif (f.path, _bb_of(f, t)) in an.trip_seen:
+                trip = an.trip.get((f.path, _bb_of(f, t)))
+            elif it is not None:
+                trip = max(it[1] - it[0] + 1, 0)
+            elif ln is not None:
+                trip = ln[1]
+            elif ei is not None:
+                trip = ei[1] + 1
+        key = (f.path, _bb_of(f, t))
+        an.trip_seen.add(key)
+        if trip is None:
+            an.trip[key] = None
+        elif key not in an.trip or an.trip[key] is not None:
+            an.trip[key] = max(an.trip.get(key) or 0, trip)
+        # advancing an iterator never widens its item / index / length summary; the remaining count drops
+        rem = st.v.get((own, ("#rem",))) if own is not None else None
+        if rem is not None:
+            okv = (0, 0) if rem[1] == 0 else ((1, 1) if rem[0] >= 1 else (0, 1))
+            return {("#ok",): okv}, None, [((own, ("#rem",)), (max(rem[0] - 1, 0), max(rem[1] - 1, 0)))]
+        return None, None, []
     dty = t["dest"]["ty"]
     L0 = an.len_of_operand(f, st, args[0]) if args else None
     owner0 = None
     if args:
         p0 = core.op_place(args[0])
         if p0 is not None and p0["ty"].startswith("&mut "):
-            owner0 = flow.resolve_owner(f, args[0], want_mut=True)
+            owner0 = flow.resolve_owner_path(f, args[0], want_mut=True)
     cap0 = None
     if args and core.op_place(args[0]) is not None:
         cap0 = type_cap(core.op_place(args[0])["ty"])
@@ -271,26 +402,38 @@ def _len_model(an, f, st, t, c, argiv):
                 if kk[0] == key[0] and kk[1][: len(pre)] == pre:
                     r[(dst_v, "0") + kk[1][len(pre):]] = vv
         return r, None, []
+    if last == "from_residual":
+        return {("#ok",): (0, 0)}, None, []
     if name == "tinyvec::arrayvec::ArrayVec::push":
-        cur = an.len_of_operand(f, st, {"k": "copy", "place": {"local": owner0, "proj": [], "ty": core.op_place(args[0])["ty"]}}) if owner0 is not None else L0
+        cur = _owner_len(an, st, owner0, core.op_place(args[0])["ty"]) if owner0 is not None else L0
         n = cap0
+        an.incr[(f.path, _bb_of(f, t))] = max(an.incr.get((f.path, _bb_of(f, t)), 0), 1)
         if cur is not None and n is not None:
             proved = cur[1] < n
-            return {}, (proved, "capacity", "len=%s capacity=%d" % (cur, n)), [(owner0, (min(cur[0] + 1, n), min(cur[1] + 1, n)))]
+            return {}, (proved, "capacity", "len=%s capacity=%d" % (cur, n)), [((owner0[0], owner0[1]), (min(cur[0] + 1, n), min(cur[1] + 1, n)))] if owner0 is not None else None
         return {}, (False, "capacity", "length unknown"), None
     if name == "tinyvec::arrayvec::ArrayVec::extend_from_slice":
-        cur = an.len_of_operand(f, st, {"k": "copy", "place": {"local": owner0, "proj": [], "ty": core.op_place(args[0])["ty"]}}) if owner0 is not None else L0
+        cur = _owner_len(an, st, owner0, core.op_place(args[0])["ty"]) if owner0 is not None else L0
         add = an.len_of_operand(f, st, args[1]) if len(args) > 1 else None
         n = cap0
+        if add is not None:
+            an.incr[(f.path, _bb_of(f, t))] = max(an.incr.get((f.path, _bb_of(f, t)), 0), add[1])
+        else:
+            an.incr[(f.path, _bb_of(f, t))] = SLICE_LEN_MAX
         if cur is not None and add is not None and n is not None:
             proved = cur[1] + add[1] <= n
-            return {}, (proved, "capacity", "len=%s + %s capacity=%d" % (cur, add, n)), [(owner0, (min(cur[0] + add[0], n), min(cur[1] + add[1], n)))]
+            return {}, (proved, "capacity", "len=%s + %s capacity=%d" % (cur, add, n)), [((owner0[0], owner0[1]), (min(cur[0] + add[0], n), min(cur[1] + add[1], n)))] if owner0 is not None else None
         return {}, (False, "capacity", "lengths unknown: %s + %s" % (cur, add)), None
-    if last in ("as_slice", "as_mut_slice", "deref", "deref_mut", "as_ref", "as_mut", "borrow", "borrow_mut", "iter", "iter_mut") and L0 is not None and \
-            (is_av or "core::array" in name or "core::slice" in name or "[" in (core.op_place(args[0]) or {"ty": ""})["ty"]):
+    if last in ("as_slice", "as_mut_slice", "deref", "deref_mut", "as_ref", "as_mut", "borrow", "borrow_mut") and L0 is not None and len(args) == 1:
         return {("#len",): L0}, None, []
     if last == "len" and L0 is not None and (is_av or name in ("core::slice::len",)):
-        return {(): L0}, None, []
+        r = {(): L0}
+        p0 = core.op_place(args[0])
+        own = flow.resolve_owner(f, args[0]) if p0 is not None else None
+        if own is not None and (own not in an._mut_borrowed or own in an._len_safe):
+            # the result is a copy of the tracked length: guards on it refine the length itself
+            r[("#copyof",)] = ((own, ("#len",)), L0)
+        return r, None, []
     if last == "is_empty" and L0 is not None and (is_av or name in ("core::slice::is_empty",)):
         lk = None
         p0 = core.op_place(args[0])
@@ -303,19 +446,33 @@ def _len_model(an, f, st, t, c, argiv):
             r[("#cmp",)] = ("Eq", lk, L0, None, (0, 0))
         return r, None, []
     if last == "enumerate" and args:
+        rr = {}
+        key = an.op_key(st, args[0])
+        rem = st.v.get((key[0], key[1] + ("#rem",))) if key is not None else None
         if L0 is not None:
-            return {("#len",): L0, ("#eidx",): (0, max(L0[1] - 1, 0))}, None, []
-        return {}, None, []
+            rr = {("#len",): L0, ("#eidx",): (0, max(L0[1] - 1, 0))}
+            rem = rem if rem is not None else L0
+        if rem is not None:
+            rr[("#rem",)] = rem
+        return rr, None, []
     if last in ("skip", "rev", "into_iter", "by_ref", "take", "iter", "iter_mut", "peekable", "copied", "cloned") and args:
         r = {}
         key = an.op_key(st, args[0])
         if key is not None:
-            for sub in (("#len",), ("#eidx",), ("#item",)):
+            for sub in (("#len",), ("#eidx",), ("#item",), ("#rem",)):
                 v = st.v.get((key[0], key[1] + sub))
                 if v is not None:
                     r[sub] = v
         if L0 is not None and ("#len",) not in r and last in ("iter", "iter_mut", "into_iter"):
             r[("#len",)] = L0
+        if ("#rem",) not in r and ("#len",) in r and last in ("iter", "iter_mut", "into_iter"):
+            r[("#rem",)] = r[("#len",)]
+        if last == "skip" and ("#rem",) in r and len(argiv) > 1 and argiv[1] is not None:
+            lo, hi = r[("#rem",)]
+            r[("#rem",)] = (max(lo - argiv[1][1], 0), max(hi - argiv[1][0], 0))
+        if last == "take" and ("#rem",) in r and len(argiv) > 1 and argiv[1] is not None:
+            lo, hi = r[("#rem",)]
+            r[("#rem",)] = (min(lo, argiv[1][0]), min(hi, argiv[1][1]))
         if last == "skip" and ("#eidx",) in r and len(argiv) > 1 and argiv[1] is not None:
             lo, hi = r[("#eidx",)]
             r[("#eidx",)] = (min(lo + argiv[1][0], max(hi, lo + argiv[1][0])), max(hi, lo + argiv[1][0]))
@@ -342,8 +499,12 @@ def _len_model(an, f, st, t, c, argiv):
             proved = s_[1] <= base[0]
             return {("#len",): (max(base[0] - s_[1], 0), max(base[1] - s_[0], 0))}, (proved, "slice-index", "%s.. of len %s" % (s_, base)), []
         if kind == "range":
-            proved = s_[1] <= e[0] and e[1] <= base[0]
-            return {("#len",): (max(e[0] - s_[1], 0), max(e[1] - s_[0], 0))}, (proved, "slice-index", "%s..%s of len %s" % (s_, e, base)), []
+            span = _range_span(an, f, st, args[1])
+            ordered = s_[1] <= e[0] or span is not None  # `X .. X + L` is ordered by construction (the addition is checked)
+            proved = ordered and e[1] <= base[0]
+            ln = span[1] if (span is not None and span[1] is not None) else (max(e[0] - s_[1], 0), max(e[1] - s_[0], 0))
+            span = span[1] if span is not None else None
+            return {("#len",): ln}, (proved, "slice-index", "%s..%s of len %s%s" % (s_, e, base, " (span %s)" % (span,) if span else "")), []
     if name in ("core::slice::copy_from_slice", "core::slice::clone_from_slice") and len(args) == 2:
         a, b_ = L0, an.len_of_operand(f, st, args[1])
         proved = a is not None and b_ is not None and a[0] == a[1] == b_[0] == b_[1]
@@ -354,6 +515,9 @@ def _len_model(an, f, st, t, c, argiv):
             proved = mid[1] <= L0[0]
             return {("0", "#len"): mid, ("1", "#len"): (max(L0[0] - mid[1], 0), max(L0[1] - mid[0], 0))}, (proved, "split", "mid=%s len=%s" % (mid, L0)), []
     if name in ("core::slice::get", "core::slice::get_mut") and len(args) == 2:
+        span = _range_span(an, f, st, args[1])
+        if span is not None and span[1] is not None:
+            return {("@Some", "0", "#len"): span[1]}, None, []
         rb = _rng_bounds(an, f, st, args[1])
         if rb and L0 is not None:
             kind, s_, e = rb
